@@ -9,7 +9,7 @@ THEOREMS = ["C05_Inv_wake_preserved", "C05_Inv_wake_every_history", "C05_snapsho
             "C05_never_late_never_lost", "C05_complete_run_wakes_at_deadline", "C05_futures_keep_invariant",
             "C05_composite_event_is_driver_event", "C05_woken_through_last_poller",
             "C05_composite_sleep_exact", "C05_composite_sleep_prefix", "C05_fragment_scripts_decode_ok",
-            "C05_removal_by_id_needs_distinct_ids",
+            "C05_removal_by_id_needs_distinct_ids", "C05_composite_reset_drop_exact",
             "C05_due_deadline_completes_immediately",
             "C05_timeout_ok_iff_inner_first", "C05_interval_ticks"]
 QUICK_N = 2500; THOROUGH_N = 150000
@@ -447,6 +447,10 @@ def task_outputs(script, out):
         flag, nw = out[i + 3 + 2 * n], out[i + 4 + 2 * n]
         snaps.append((t, m, slots, nw if flag else None))
         i += 5 + 2 * n
+    if len(out) - i == 4 and out[i] == 9:
+        # the runner saw two timer entries with one id in a driver (hook ModuleRef::verif_timer_entry_ids)
+        snaps.append(("dup", out[i + 1], out[i + 2], out[i + 3]))
+        i += 4
     if out[i:] not in ([], [8]):
         raise ValueError("trailing output %s" % out[i:])
     return tasks, res, ok, end, snaps
@@ -456,6 +460,10 @@ def check_snapshots(snaps):
     """Inv_wake (coq/Timer/Inv.v) evaluated on the real driver between events: slots sorted by distinct deadlines, the
     front slot holds a timer, no slot lies in the past, and whenever a slot holds a live timer the driver's next_wakeup --
     the AsyncWakeupEvent it has put into the event set -- satisfies now <= next_wakeup <= earliest live deadline."""
+    for sn in snaps:
+        if sn[0] == "dup":
+            return ("t=%d module %d: two timer entries of one driver carry the same id %d: TimerSlot::remove(id) cannot tell "
+                    "the timers apart (ids must be pairwise distinct)" % (sn[1], sn[2], sn[3]))
     for (t, m, slots, nw) in snaps:
         times = [d for d, _ in slots]
         if any(a >= b for a, b in zip(times, times[1:])):
